@@ -174,21 +174,23 @@ def pattern_value(p, cl, conn_name):
             vals.append(MUST if obj_value(o, cl.destroys) else MUSTNOT)
         return v_or(vals)
     name = p.get('name')
-    if name in ('new', 'destroyed'):
-        # pseudo-messages; a real protocol message that happens to be called new/destroyed
-        # (e.g. zxdg_imported_v2.destroyed) is selected by its name as any other message is
-        real = MUST if (cl.name == name and obj_value(o, cl.target)) else MUSTNOT
-        if name == 'new':
-            vals = [MUST if obj_value(o, g.value) else MUSTNOT for g in cl.args if g.kind == 'n']
-        else:
-            vals = [MUST if obj_value(o, cl.destroys) else MUSTNOT] if cl.destroys is not None else []
-        return v_or(vals + [real])
     r = MUST if obj_value(o, cl.target) else MUSTNOT
     if name:
         r = v_and(r, MUST if glob_match(name, cl.name) else MUSTNOT)
     if p.get('args') is not None:
         for a in p['args']:
             r = v_and(r, atom_value(a, cl))
+    if name in ('new', 'destroyed'):
+        # pseudo-messages; a real protocol message that happens to be called new/destroyed
+        # (e.g. zxdg_imported_v2.destroyed) is selected by its name as any other message is (r above)
+        if name == 'new':
+            vals = [MUST if obj_value(o, g.value) else MUSTNOT for g in cl.args if g.kind == 'n']
+        else:
+            vals = [MUST if obj_value(o, cl.destroys) else MUSTNOT] if cl.destroys is not None else []
+        pseudo = v_or(vals) if vals else MUSTNOT
+        if p.get('args') and pseudo == MUST:
+            pseudo = DC        # `.destroyed(args)` / `.new(args)`: the documentation does not say
+        return v_or([pseudo, r])
     return r
 
 
